@@ -665,3 +665,32 @@ Proof.
   intros Hx Hy. split; [apply k_grid_length|]. split; [intros; now apply k_grid_nth|].
   intros p. now apply k_grid_range.
 Qed.
+
+(* ---------- statements assembled for Props/C08.v ---------- *)
+Local Open Scope Z_scope.
+Lemma hk_periodic_claim :
+  forall (es cr : list (Z * Z)) (J : list Z) (col : option (list Z)) (u : list Z) (qa qb a b : Z),
+  hk_gauss es cr J col u (qa + 4) qb a b = hk_gauss es cr J col u qa qb a b /\
+  hk_gauss es cr J col u qa (qb + 4) a b = hk_gauss es cr J col u qa qb a b.
+Proof. intros. split; [apply hk_gauss_periodic_a | apply hk_gauss_periodic_b]. Qed.
+
+Lemma hk_gauss_hermitian_gamma_claim :
+  forall (es cr : list (Z * Z)) (J : list Z) (col : option (list Z)) (u : list Z) (qa qb a b : Z),
+  gconj (hk_gauss es cr J col u qa qb b a) = hk_gauss es cr J col u qa qb a b /\
+  ((length es <= length cr)%nat -> hk_gauss es cr J col u 0 0 a b = ham_gauss es J col u a b).
+Proof. intros. split; [apply hk_gauss_hermitian | apply hk_gauss_gamma]. Qed.
+
+Lemma lower_half_claim :
+  forall es : list Q, length (lower_half es) = Nat.div (length es) 2 /\
+                      es = lower_half es ++ skipn (Nat.div (length es) 2) es.
+Proof. intros. split; [apply lower_half_length | apply lower_half_prefix]. Qed.
+
+Lemma gap_grid_claim :
+  forall spectra : list (list Q),
+  length (gaps spectra) = length spectra /\
+  (forall i, nth i (gaps spectra) None = qabs_min (nth i spectra [])) /\
+  (forall l m, qabs_min l = Some m ->
+     (forall x, In x l -> (m <= Qabs x)%Q) /\ (exists x, In x l /\ (m == Qabs x)%Q)).
+Proof.
+  intros. destruct (gaps_spec spectra) as (H1 & H2). split; [exact H1|]. split; [exact H2|]. exact qabs_min_spec.
+Qed.
